@@ -196,6 +196,22 @@ def streams(rng, tier):
             key2 = f"#R={len(TREES)}"
             TREES[key2] = t
             mops.append(f"display {W.enc(t).hex()} {key2}")
+    # long strings (whatever is buffered on the way out must come out in order), tags 2 / 3 around byte strings (a tag is a tag)
+    for n in (1000, 1023, 1024, 1025, 2000, 5000):
+        txt = bytes(0x61 + (i % 26) for i in range(n))
+        for t in (("text", W.min_width(n), txt), ("map", 0, [("text", 0, b"k"), ("tag", W.min_width(32), 32, ("text", W.min_width(n), txt))]),
+                  ("array", 0, [("uint", 0, 1), ("textI", [(W.min_width(n), txt), (0, b"z")]), ("bytes", W.min_width(n), txt)])):
+            key2 = f"#R={len(TREES)}"; TREES[key2] = t
+            mops.append(f"display {W.enc(t).hex()} {key2}")
+    for n in list(range(0, 70)) + [95, 96, 97, 127, 128, 129, 255, 256, 257, 511, 512, 1024, 4096]:       # every length around any block size
+        for t in (("bytes", W.min_width(n), bytes((i * 13 + 7) % 256 for i in range(n))), ("text", W.min_width(n), bytes(0x30 + (i % 10) for i in range(n)))):
+            key2 = f"#R={len(TREES)}"; TREES[key2] = t
+            mops.append(f"display {W.enc(t).hex()} {key2}")
+    for tg in (2, 3):
+        for bs in (b"", b"\x00", b"\x01" + b"\x00" * 8, b"\xff" * 16, b"\xff" * 17, b"\x01\x02"):
+            t = ("tag", 0, tg, ("bytes", W.min_width(len(bs)), bs))
+            key2 = f"#R={len(TREES)}"; TREES[key2] = t
+            mops.append(f"display {W.enc(t).hex()} {key2}")
     s5 = Stream("many-items", "hcore", mops, judge=judge_tree,
                 rule="display of arrays of 100..1000 tags / empty containers / chunked strings / tag nests == the notation rendered from the tree")
     s5.shrinkable = False
